@@ -273,6 +273,68 @@ let run_rrsend (args : string list) : string =
       | t :: _ -> raise (Unsupported ("rrsend op " ^ t))) ops;
     String.concat " " (List.rev !out)
 
+(* ROUTER send to a named peer, REQ lock-step round robin, SUB broadcast over scripted connections (Model/DirSend.v);
+   case lines come from zvlib/scripted.py *)
+let run_dirsend (args : string list) : string =
+  match split_ops args with
+  | [] -> "empty"
+  | head :: ops ->
+    let flavour = (match head with f :: _ -> f | [] -> "") in
+    let q = ref { DirSend.q_base = RrSend.rstate0; DirSend.q_cur = None } in
+    let s = ref { DirSend.s_peers = []; DirSend.s_subs = [] } in
+    let out = ref [] in
+    let seen : (string, int) Hashtbl.t = Hashtbl.create 8 in
+    let msg_of t = List.map bytes_tok (String.split_on_char ';' t) in
+    let answers l = List.map parse_ans (List.filter (fun x -> x <> "") (String.split_on_char ',' l)) in
+    let fl = function
+      | RrSend.FlErr e -> "Codec.Io." ^ kind_name (int_of_n e)
+      | RrSend.FlZero -> "Codec.Io.UnexpectedEof"
+      | RrSend.FlOk -> "ok?" | RrSend.FlStall -> "stall?" in
+    let base_step o = let (_, st) = RrSend.rstep (!q).DirSend.q_base o in q := { !q with DirSend.q_base = st } in
+    let sub_step o = let (r, st) = DirSend.sstep !s o in s := st; r in
+    let rec drop n l = if n = 0 then l else (match l with [] -> [] | _ :: t -> drop (n - 1) t) in
+    let wire c all =
+      let n0 = (try Hashtbl.find seen c with Not_found -> 0) in
+      let d = drop n0 all in
+      Hashtbl.replace seen c (List.length all);
+      out := Printf.sprintf "wire:%s=%s" c (if d = [] then "-" else hex_of d) :: !out in
+    List.iter (fun toks ->
+      match flavour, toks with
+      | _, [] -> ()
+      | "SUB", ["attach"; c] -> ignore (sub_step (DirSend.SAttach (conn_id c)))
+      | "SUB", ["mode"; c; a] -> ignore (sub_step (DirSend.SMode (conn_id c, parse_ans a)))
+      | "SUB", ["plan"; c; l] -> ignore (sub_step (DirSend.SPlan (conn_id c, answers l)))
+      | "SUB", [("sub" | "unsub") as o; t] ->
+          let r = sub_step (if o = "sub" then DirSend.SSub (bytes_tok t) else DirSend.SUnsub (bytes_tok t)) in
+          out := (match r with
+                  | Some DirSend.BOk -> o ^ "=ok"
+                  | Some (DirSend.BFirstErr (_, e)) -> o ^ "=err:" ^ fl e
+                  | Some (DirSend.BStall _) -> o ^ "=pending"
+                  | None -> o ^ "=?") :: !out
+      | "SUB", ["wire"; c] ->
+          let all = (match RrSend.pget (conn_id c) (!s).DirSend.s_peers with
+                     | Some p -> p.RrSend.p_sink.TrySend.k_written | None -> []) in
+          wire c all
+      | _, ["attach"; c] -> base_step (RrSend.RAttach (conn_id c))
+      | _, ["mode"; c; a] -> base_step (RrSend.RMode (conn_id c, parse_ans a))
+      | _, ["plan"; c; l] -> base_step (RrSend.RPlan (conn_id c, answers l))
+      | _, ["wire"; c] -> wire c (RrSend.wire_of (conn_id c) (!q).DirSend.q_base)
+      | "ROUTER", ["sendto"; c; m] ->
+          let (r, st) = DirSend.send_to (!q).DirSend.q_base (conn_id c) (msg_of m) in
+          q := { !q with DirSend.q_base = st };
+          out := (match r with
+                  | RrSend.ROk _ -> "s=ok" | RrSend.RErr (_, e) -> "s=err:" ^ fl e
+                  | RrSend.RNoPeer -> "s=err:Other" | RrSend.RStall _ -> "s=pending") :: !out
+      | "REQ", ["send"; m] ->
+          let (r, q') = DirSend.req_send !q (msg_of m) in
+          q := q';
+          out := (match r with
+                  | DirSend.QSent _ -> "s=ok" | DirSend.QErr (_, e) -> "s=err:" ^ fl e
+                  | DirSend.QNoPeer | DirSend.QBusy -> "s=err:ReturnToSender" | DirSend.QStall _ -> "s=pending") :: !out
+      | "REQ", ["settle"] -> q := DirSend.req_settled !q
+      | _, t :: _ -> raise (Unsupported ("dirsend op " ^ t))) ops;
+    String.concat " " (List.rev !out)
+
 (* proxy: same case syntax as harness/src/proxy.rs *)
 let run_proxy (args : string list) : string =
   match split_ops args with
@@ -540,6 +602,7 @@ let run_case kind (args : string list) : string =
   | "proxy" -> (try run_proxy args with Unsupported s -> "model-unsupported " ^ s)
   | "chain" -> (try run_chain args with Unsupported s -> "model-unsupported " ^ s)
   | "ts" -> run_ts args
+  | "dirsend" -> (try run_dirsend args with Unsupported s -> "model-unsupported " ^ s)
   | "rrsend" -> (try run_rrsend args with Unsupported s -> "model-unsupported " ^ s)
   | "pubfan" -> (try run_pubfan args with Unsupported s -> "model-unsupported " ^ s)
   | "fq" -> run_fq args
